@@ -23,6 +23,9 @@ Which option values select the windowed path ("0 means unbounded") is not decide
 
 Round 4: on every compile path the search-window attribute ends up holding the configured value
 itself (unset / 0: unbounded, n: the next n bytes).
+
+Round 5: (d') the exported EOS constant carries the pattern text the read-to-end path is keyed
+on.
 """
 import ast
 
